@@ -17,7 +17,7 @@ Theorem C03_send_while_transmitting_is_refused : forall w c slots, c_transmittin
 Proof. exact send_data_busy. Qed.
 
 Example C03_example_exchange :
-  let cfg := mk_rcfg (mk_limits 8190 8 100 65534 1024 8 65534 65534 false) 1048576 1048576 true true in
+  let cfg := mk_rcfg (mk_limits 8190 8 100 65534 1024 8 65534 65534 false) 1048576 1048576 true true false in
   let o := mk_sopts false 0 false false false false false cfg in
   let rq := [71;69;84;32;47;32;72;84;84;80;47;49;46;49;13;10;72;111;115;116;58;32;104;13;10;13;10] in
   let '(w, l) := run (fun _ => mk_recipe 200 2 1 []) o w_init [([], EvAccept true); ([], EvRead 1 rq); ([], EvWriteDone 1)] in
